@@ -18,7 +18,8 @@
 (* data phase; a transfer completes in the data-phase cycle with HREADYOUT *)
 (* high; an ERROR response takes two cycles (ERROR with HREADYOUT low,     *)
 (* then ERROR with HREADYOUT high), OKAY otherwise.                        *)
-(* c: lanes, words, init, sizes, datas (write data patterns), dirs, badlo  *)
+(* c: lanes, words, init, addrs (byte addresses used), sizes, datas (write *)
+(*    data patterns), dirs, badlo                                          *)
 (***************************************************************************)
 EXTENDS Integers, Sequences, FiniteSets, TLC
 
@@ -36,7 +37,7 @@ MInit(c) ==
              wwait |-> FALSE, rwait |-> FALSE, mfair |-> TRUE]
 
 Transfers(c) ==
-  { <<a, w, sz>> \in (0..(c.words * c.lanes - 1)) \X {0, 1} \X { c.sizes[i] : i \in 1..Len(c.sizes) } :
+  { <<a, w, sz>> \in { c.addrs[i] : i \in 1..Len(c.addrs) } \X {0, 1} \X { c.sizes[i] : i \in 1..Len(c.sizes) } :
       (a % (2^sz)) = 0 /\ (c.dirs = "w" => w = 1) /\ (c.dirs = "r" => w = 0) }
 
 MInputs(c) ==
